@@ -17,6 +17,14 @@ CHECKS = {
         'Generated-input search over grammars x inputs against an independent reference evaluator: ~4000 grammars x 6 inputs per quick run '
         '(derived sentences, near misses, token soup), any start rule, consumed length observed through a wrapper rule. Exploration.',
         REF_NOTE, 'DESIGN.md §3 C01, §2.3'),
+    'C03': (
+        'property-based testing: specification-first generation of layered left-recursive grammars; two independent oracles (precedence-climbing evaluator, RefPEG with seed growing) + model-vs-generated differential + termination watchdog; small-scope enumeration of all lexeme strings for 11 family grammars',
+        'Generated precedence tables printed as grammars (direct, aliased either way with either name order, named, optional-prefixed left recursion; right-recursive and unary levels; parentheses) x generated operator/operand strings and near misses, parsed from every level and alias rule; TatSu is judged only where both oracles agree. Exploration with exhaustive sub-spaces (family grammars x all lexeme strings up to 5/7 lexemes).',
+        'trusts agreement of two independent evaluators of mine; unlayered mutual recursion only gets the termination oracle (C16)', 'DESIGN.md §3 C03'),
+    'C04': (
+        'property-based differential testing: default configuration vs memoization off / perlinememos 0.01..8 / prune on-off / trace / colorize / parseinfo, with counting and rejecting (FailedSemantics) semantics',
+        'Generated grammars wrapped so that the start rule is retried at the same position after backtracking, and left-recursive statement/expression grammars with cuts, x multi-line inputs x 14 setting variants; outcome (AST or failure class) must equal the default; call sets with and without memoization compared. Exploration.',
+        'the default configuration is the reference point (C01/C03 judge it); a timeout without memoization is inconclusive, not a violation', 'DESIGN.md §3 C04'),
     'C05': (
         'property-based testing: cut insertion into generated cut-free grammars; reference oracle RefPEG-with-cut + metamorphic (cuts removed) + locality wrapper',
         'Generated grammars with 1-3 inserted cuts x sentences corrupted right after each passed cut; three oracles (reference; cuts are invisible '
@@ -28,6 +36,10 @@ CHECKS = {
         'Hypothesis long texts; (b) generated grammars with names/typed rules x laid-out sentences with parseinfo=True: every dict AST and node '
         'must carry (rule, pos, endpos) of an invocation in the reference trace that returned it, and the right start line. Exploration with an exhaustive sub-space.',
         'trusts my splitter (LF, CR, CRLF) and RefPEG\'s trace; offset == len(text) only checked for not raising', 'DESIGN.md §3 C12'),
+    'C16': (
+        'exhaustive enumeration of small rule graphs + Hypothesis-sampled larger graphs against my own left-call-graph / nullability / cycle analysis; fixed input battery under a recursion limit and watchdog',
+        'All 420 one-rule graphs and all 1764 two-rule single-alternative graphs (exhaustive), plus sampled 2x2, 3-rule and 4-6-rule graphs: GrammarError with left recursion off iff a left-call cycle exists; is_lrec/is_memo exact off-cycle; every cycle guarded; battery of 15 inputs from every rule terminates. Exploration with an exhaustive sub-space.',
+        'trusts my graph analysis (written from the statement); unbounded recursion is observed as RecursionError at limit 1500 / 10 s alarm on tiny inputs', 'DESIGN.md §3 C16'),
     'C20': (
         'property-based testing (Hypothesis), reference oracle = builtin format(); repr round trip',
         'Generated-input search: ~50k (text, style, spec, route, colour policy) tuples per quick run compared with the builtin '
